@@ -46,7 +46,7 @@ class Query:
     """One solver query = one harness entry in one configuration."""
     def __init__(self, name, src, entry, defs=None, std='c++17', opt='-O1', unwind=12, unwindset=None, arena=(4, 64),
                  timeout=300, mem_gb=4, object_bits=None, ndebug=True, nonstd=True, hooks=(), note='', expect_reach=None,
-                 symbolic='', bounds=None, miter=None, extra_cbmc=(), optional_reach=()):
+                 symbolic='', bounds=None, miter=None, extra_cbmc=(), optional_reach=(), unwind_cap=300):
         self.name, self.src, self.entry = name, src, entry
         self.defs = dict(defs or {})
         self.std, self.opt, self.unwind = std, opt, unwind
@@ -61,6 +61,7 @@ class Query:
         self.miter = miter     # (std2/opt2/... second configuration) for C16
         self.extra_cbmc = tuple(extra_cbmc)
         self.optional_reach = set(optional_reach)   # markers that are legitimately unreachable in this partition
+        self.unwind_cap = unwind_cap                  # loop bounds are raised automatically up to this cap
     def build_key(self):
         return (self.src, tuple(sorted(self.defs.items())), self.std, self.opt, self.ndebug, self.nonstd, self.hooks,
                 json.dumps(self.miter, sort_keys=True) if self.miter else None)
@@ -339,7 +340,7 @@ BUDGET = MemBudget(max(4.0, float(os.environ.get('VERIF_MEM_GB', '0')) or _ram_g
 def decide(b, q, hints, unwind_cap=300):
     gb = BUDGET.acquire(q.mem_gb)
     try:
-        return _decide(b, q, hints, unwind_cap)
+        return _decide(b, q, hints, q.unwind_cap)
     finally:
         BUDGET.release(gb)
 
@@ -369,7 +370,12 @@ def _decide(b, q, hints, unwind_cap=300):
                 capmul = 2; continue
             return dict(verdict='inconclusive', reason='solver out of memory under a %.0f GB cap' % cap, wall=time.time() - t0, attempts=attempts, unwindset=unwindset, rss_mb=peak)
         raised = False
+        # a counterexample found under the current bounds is genuine (unwinding only cuts paths): no need to chase larger bounds
+        real = any(p['status'] == 'FAILURE' and classify(p.get('description', ''), p.get('property', ''))[0] in ('assert', 'generic', 'fail')
+                   and not (classify(p.get('description', ''), p.get('property', ''))[0] == 'fail' and classify(p.get('description', ''), p.get('property', ''))[1] == 5)
+                   for p in results)
         for p in results:
+            if real: break
             if p['status'] == 'FAILURE':
                 c = classify(p.get('description', ''), p.get('property', ''))
                 if c[0] == 'unwind':
@@ -575,7 +581,15 @@ class Checker:
                     if c[1] == 5: bound.append(c[2])
                     else: failed.append(dict(kind='env', code=c[1], what=c[2], prop=p['property']))
             elif c[0] == 'unwind':
-                if not ok: bound.append('unwinding bound reached at cap: ' + p['property'])
+                if not ok and not any(pp['status'] == 'FAILURE' and classify(pp.get('description', ''), pp.get('property', ''))[0] in ('assert', 'generic') for pp in d['results']):
+                    # A loop runs past the bound derived from the scope (cap reached).  In partitions where the loops behind a
+                    # check must never be entered (capacity-limit errors) this is a behaviour change: replay it natively.
+                    vals = get_trace(b, q, d['unwindset'], p['property']) if b.bin_cxx else None
+                    res = b.native(b.bin_cxx, q.entry, replay=vals)[0] if vals is not None else 'no-trace'
+                    if res.startswith(('ASSERT', 'SANITIZER', 'CRASH', 'STEPLIMIT', 'TIMEOUT')):
+                        failed.append(dict(kind='unwind', what='loop runs past its bound (%s)' % p['property'], prop=p['property'], values=vals, replay=res, relevant=True))
+                    else:
+                        bound.append('unwinding bound reached at cap: ' + p['property'])
             else:
                 if not ok: failed.append(dict(kind='generic', what=c[1], prop=p['property']))
         if 'stores' in q.hooks:
@@ -614,10 +628,11 @@ class Checker:
         # counterexamples -> native replay
         if failed:
             for f in failed:
-                f['relevant'] = self.relevant(f)
+                if 'relevant' not in f: f['relevant'] = self.relevant(f)
             rel = [f for f in failed if f['relevant']]
             rel.sort(key=lambda f: 0 if f['kind'] == 'assert' else 1)
             for f in rel[:4]:
+                if 'replay' in f: continue
                 if f['kind'] == 'static':
                     f['replay'] = 'CRASH static-fact'; f['values'] = []; continue
                 vals = get_trace(b, q, d['unwindset'], f['prop'])
